@@ -57,6 +57,8 @@ impl Submissions {
         asan::unpoison(submission);
 
         // Reset and fill the submission.
+        #[cfg(a10_verif)]
+        crate::verif::yield_point(crate::verif::points::FILL_SQE);
         submission.reset();
         fill_submission(submission);
         #[cfg(debug_assertions)]
